@@ -65,9 +65,15 @@ OrderFrom(c) ==
      ELSE IF nk = 1 \/ f1 = f2 THEN <<[f |-> f1, desc |-> d1]>>
      ELSE <<[f |-> f1, desc |-> d1], [f |-> f2, desc |-> d2]>>
 
+\* one case in four of those whose filter is a single condition on a scalar field is ordered by that very field (the
+\* shape in which one index can serve the filter and the order at once)
+OrderFor(flt, oc) ==
+  IF D(R(oc, 256), 4) = 0 /\ flt.t \in {"cmp", "in"} /\ flt.f \in {"s", "i", "b", "j"}
+  THEN <<[f |-> flt.f, desc |-> D(R(oc, 16), 2) = 1]>>
+  ELSE OrderFrom(oc)
 QueryFrom(kc, sh, a1, a2, a3, oc, lc) ==
   LET flt == FilterFrom(sh, a1, a2, a3) IN
-  IF kc <= 5 THEN [kind |-> "list", flt |-> flt, order |-> OrderFrom(oc), limit |-> D(lc, 4), offset |-> D(R(lc, 4), 3),
+  IF kc <= 5 THEN [kind |-> "list", flt |-> flt, order |-> OrderFor(flt, oc), limit |-> D(lc, 4), offset |-> D(R(lc, 4), 3),
                    fn |-> "", af |-> "", gf |-> "", gl |-> 0, go |-> 0]
   ELSE IF kc <= 8 THEN [kind |-> "agg", flt |-> flt, order |-> <<>>, limit |-> 0, offset |-> 0,
                         fn |-> <<"_count", "_sum", "_avg", "_min", "_max">>[D(oc, 5) + 1], af |-> "i", gf |-> "", gl |-> 0, go |-> 0]
@@ -82,7 +88,7 @@ Next ==
   \E dc \in {[k \in 1..NDocs |-> RE(11231)]} :
   \E kc \in {RE(9)}, sh \in {RE(11)} :
   \E a1 \in {RE(Big)}, a2 \in {RE(Big)}, a3 \in {RE(Big)} :
-  \E oc \in {RE(255)}, lc \in {RE(11)} :
+  \E oc \in {RE(1023)}, lc \in {RE(11)} :
     LET docs == {DocFrom(k, dc[k]) : k \in 1..NDocs}
         q == QueryFrom(kc, sh, a1, a2, a3, oc, lc)
     IN /\ step' = step + 1
